@@ -39,7 +39,16 @@ def judge(ctx, mode, extra, obs, acc):
         elif ev[0] == 'seeds':
             seeds.setdefault(ev[1], []).extend((p[1], ev[3], ev[4]) for p in ev[5])
     fp_file = {'separate': 'main', 'all': '_1'}.get(mode)
+    seen = {}
+    for ev in first:
+        if ev[0] == 'seeds':
+            seen.setdefault(ev[1], {}).setdefault(ev[3], 0)
+            seen[ev[1]][ev[3]] += 1
     for qid in ctx.qmaps:
+        # candidates are built "over all references and both strands": every query is correlated with every reference twice
+        if first and {r: seen.get(qid, {}).get(r, 0) for r in ctx.rmaps} != {r: 2 for r in ctx.rmaps}:
+            found.append(('query-not-correlated-with-every-reference-and-strand', 'query %s: correlations per reference %s, references %s' % (
+                qid, seen.get(qid, {}), sorted(ctx.rmaps)), 'selection', {}))
         cl = cands.get(qid, [])
         good = [c for c in cl if c['pairs']]
         if len(cl) > pc:
@@ -89,7 +98,7 @@ def layers(tier, seed):
     refs, pool, sets = e2e.query_sets(n, 'c05')
     if tier != 'quick' or seed:
         sets = sets + e2e.query_sets(2 if tier == 'quick' else 40, 'c05-seed-%d' % seed)[2]
-    ws = [e2e.set_world(refs, pool, s, nrefs=(3, 2, 3, 1)[i % 4]) for i, s in enumerate(sets)]
+    ws = [e2e.set_world(refs, pool, s, nrefs=(3, 2, 3, 1)[i % 4], short_ref=i % 3 == 1) for i, s in enumerate(sets)]
     extras = tuple(('-p', str(p)) for p in (1, 2, 3, 5))
     return [e2e.WorldLayer('worlds', ws, judge, extras=extras, extensions=[sink.Candidates, sink.Seeds],
                            bounds=dict(worlds=len(ws), peaksCount=[1, 2, 3, 5], modes=list(e2e.MODES), queries_per_world=[3, 5], references=[1, 3]),
